@@ -23,6 +23,7 @@ import DimModel.Driver.ExtRed
 import DimModel.Driver.ExtCache
 import DimModel.Driver.ExtMulti
 import DimModel.Driver.ExtSel
+import DimModel.Driver.ExtGrouped
 import DimModel.Lib.DatasetCtor
 import DimModel.Driver.ExtC14Ops
 import DimModel.Driver.ExtC14Ops3
@@ -532,6 +533,7 @@ def handle (op : String) (req : Json) : P (List (String × Json)) := do
               | .ok (_, s) => encDS s (.ok ())
               | .error e => Json.mkObj [("err", encErr e)])]
   | "redx" => handleRedX req
+  | "grouped_cache" => match handleGrouped op req with | some r => r | none => throw s!"unknown op {op}"
   | _ => match ((handleCache op req).orElse (fun _ => handleMulti op req)).orElse (fun _ => handleSel op req) with | some r => r | none => throw s!"unknown op {op}"
 
 def answer (line : String) : String :=
